@@ -222,6 +222,20 @@ func (r *run) guarded(i int, or *OpRes, call func() error) {
 	}
 }
 
+// what an Info struct holds before the call: a caller's earlier contents.  A rejected Provide or Decorate must not
+// write to it (C18); an accepted one overwrites all three fields.
+const sentinelID = dig.ID(-7)
+
+var (
+	sentinelIn  = []*dig.Input{nil}
+	sentinelOut = []*dig.Output{nil}
+	touchedInfo = &Info{ID: -99, In: [][]interface{}{}, Out: [][]interface{}{}}
+)
+
+func untouched(id int64, in []*dig.Input, out []*dig.Output) bool {
+	return id == int64(sentinelID) && len(in) == 1 && in[0] == nil && len(out) == 1 && out[0] == nil
+}
+
 // readOptions prints every option the way a caller who logs its configuration would (the options implement
 // fmt.Stringer); a panic in there surfaces, through guarded, as a panic of dig's own.
 func readOptions(opts interface{}) {
@@ -321,13 +335,19 @@ func (r *run) exec(i int, op Op, or *OpRes) {
 		if op.Cb {
 			opts = append(opts, dig.WithProviderCallback(r.callback(i)))
 		}
-		var pi dig.ProvideInfo
+		// the struct is handed over already filled (as a caller who reuses one struct for several calls does): a rejected
+		// Provide must leave it exactly as it is
+		pi := dig.ProvideInfo{ID: sentinelID, Inputs: sentinelIn, Outputs: sentinelOut}
 		if op.Info {
 			opts = append(opts, dig.FillProvideInfo(&pi))
 		}
 		r.guarded(i, or, func() error { readOptions(opts); return sc.Provide(fs.value, opts...) })
-		if op.Info && !(pi.ID == 0 && pi.Inputs == nil && pi.Outputs == nil) {
-			or.Info = &Info{ID: r.infoID(int64(pi.ID), op.Fn), In: r.inputs(pi.Inputs), Out: r.outputs(pi.Outputs)}
+		if op.Info && !untouched(int64(pi.ID), pi.Inputs, pi.Outputs) {
+			if or.V != "ok" {
+				or.Info = touchedInfo // rejected, yet the struct was written to
+			} else {
+				or.Info = &Info{ID: r.infoID(int64(pi.ID), op.Fn), In: r.inputs(pi.Inputs), Out: r.outputs(pi.Outputs)}
+			}
 		}
 
 	case "decorate":
@@ -335,13 +355,17 @@ func (r *run) exec(i int, op Op, or *OpRes) {
 		if op.Cb {
 			opts = append(opts, dig.WithDecoratorCallback(r.callback(i)))
 		}
-		var di dig.DecorateInfo
+		di := dig.DecorateInfo{ID: sentinelID, Inputs: sentinelIn, Outputs: sentinelOut}
 		if op.Info {
 			opts = append(opts, dig.FillDecorateInfo(&di))
 		}
 		r.guarded(i, or, func() error { readOptions(opts); return sc.Decorate(fs.value, opts...) })
-		if op.Info && !(di.ID == 0 && di.Inputs == nil && di.Outputs == nil) {
-			or.Info = &Info{ID: r.infoID(int64(di.ID), op.Fn), In: r.inputs(di.Inputs), Out: r.outputs(di.Outputs)}
+		if op.Info && !untouched(int64(di.ID), di.Inputs, di.Outputs) {
+			if or.V != "ok" {
+				or.Info = touchedInfo
+			} else {
+				or.Info = &Info{ID: r.infoID(int64(di.ID), op.Fn), In: r.inputs(di.Inputs), Out: r.outputs(di.Outputs)}
+			}
 		}
 
 	case "invoke":
